@@ -730,6 +730,28 @@ func (ex *exec) stmtText(s ast.Stmt) string {
 	return normSpace(string(data[a:b]))
 }
 
+// stmtHasRules: some proof step of the function under verification is anchored at statement s.
+func (ex *exec) stmtHasRules(s ast.Stmt) bool {
+	if len(ex.frames) == 0 {
+		return false
+	}
+	ct := ex.eng.contracts[ex.fr().fi.Key]
+	if ct == nil || len(ct.StmtRules) == 0 {
+		return false
+	}
+	switch s.(type) {
+	case *ast.BlockStmt, *ast.IfStmt, *ast.ForStmt, *ast.RangeStmt, *ast.SwitchStmt:
+		return false
+	}
+	txt := ex.stmtText(s)
+	for i := range ct.StmtRules {
+		if ct.StmtRules[i].Text == txt {
+			return true
+		}
+	}
+	return false
+}
+
 // applyGhost runs the proof steps anchored after statement s.
 func (ex *exec) applyGhost(st *State, s ast.Stmt, when string) {
 	if when != "after" || len(ex.frames) == 0 {
@@ -806,6 +828,17 @@ func (ex *exec) applyGhost(st *State, s ast.Stmt, when string) {
 			empty := &State{vars: st.vars, heap: st.heap, ghost: st.ghost, gver: st.gver}
 			ex.oblige(empty, "unfold", r.Label, f, s.Pos())
 			ex.obligs[len(ex.obligs)-1].NoAbstract = true
+			// `[from opaque:f, opaque:g]`: these spec functions stay uninterpreted in this instance (the
+			// instance then holds for every interpretation of them)
+			for _, fr := range r.From {
+				if strings.HasPrefix(fr, "opaque:") {
+					o := ex.obligs[len(ex.obligs)-1]
+					if o.AbstractOnly == nil {
+						o.AbstractOnly = map[string]bool{}
+					}
+					o.AbstractOnly[strings.TrimPrefix(fr, "opaque:")] = true
+				}
+			}
 			st.assume(f)
 			st.name(r.Label, f)
 		case "leftpad":
@@ -1683,6 +1716,14 @@ func (env *specEnv) call(c *ast.CallExpr) Value {
 		sub := *env
 		sub.st = env.old
 		// locals and results in old() refer to entry state
+		return sub.eval(c.Args[0])
+	case "prev":
+		// prev(e): e evaluated in the state just before the statement a proof step is anchored at
+		if env.ex.prevSt == nil {
+			env.fail("prev() outside a proof step anchored at a statement")
+		}
+		sub := *env
+		sub.st = env.ex.prevSt
 		return sub.eval(c.Args[0])
 	case "implies":
 		return Implies(env.toBool(arg(0)), env.toBool(arg(1)))
